@@ -51,6 +51,10 @@ class PathLimit(Exception):
     pass
 
 
+class PathCut(Exception):
+    """the path ends here by design (inductive step of a loop invariant proved; nothing to continue)"""
+
+
 # ----------------------------------------------------------------------------- heap values
 class Ref:
     __slots__ = ("oid",)
@@ -123,6 +127,43 @@ class SymList(L.SymVal):
 
     def sym_type(self):
         return list
+
+
+class _FieldsView:
+    def __init__(self, view):
+        self._v = view
+
+    def get(self, name, default=None):
+        v = self._v
+        saved = v.ctx.post_mode
+        v.ctx.post_mode = False
+        try:
+            return v.ctx.getattr(v.ref, name)
+        except PyRaise:
+            return default
+        finally:
+            v.ctx.post_mode = saved
+
+    def __getitem__(self, name):
+        r = self.get(name, _MISSING)
+        if r is _MISSING:
+            raise KeyError(name)
+        return r
+
+    def __contains__(self, name):
+        return self.get(name, _MISSING) is not _MISSING
+
+
+_MISSING = object()
+
+
+class ObjView:
+    """what a contract's post-condition sees of a repository object: its class and its PUBLIC attributes
+    (read through the class's own properties), never the raw slot layout"""
+    def __init__(self, ctx, ref, o):
+        self.ctx, self.ref, self.cls = ctx, ref, o.cls
+        self.fields = _FieldsView(self)
+        self.raw = o
 
 
 class BoundMeth:
@@ -470,6 +511,18 @@ class Ctx:
         self.opts = opts or {}
         self.no_summary = set(self.opts.get("no_summary", ()))
         self.branch_count = 0
+        self.side_results = []      # obligations generated inside the engine (loop invariants, side conditions)
+        self.in_loop_step = False
+        self.loop_counter = 0
+
+    def side_check(self, name, formula):
+        from .verify import check_valid
+        r = check_valid(self, formula, self.timeout_ms, None, None)
+        r["name"] = name
+        r["clause"] = name
+        r["decisions"] = list(self.taken)
+        self.side_results.append(r)
+        return r["verdict"] == "PROVED"
 
     # -- heap
     def alloc(self, obj):
@@ -478,8 +531,13 @@ class Ctx:
         self.heap[oid] = obj
         return Ref(oid)
 
+    post_mode = False
+
     def deref(self, r):
-        return self.heap[r.oid]
+        o = self.heap[r.oid]
+        if self.post_mode and isinstance(o, HObj):
+            return ObjView(self, r, o)
+        return o
 
     def new_obj(self, cls, **fields):
         return self.alloc(HObj(cls, fields))
@@ -589,10 +647,16 @@ class Ctx:
         if isinstance(v, Ref):
             o = self.deref(v)
             if isinstance(o, HObj):
-                if name in o.fields:
-                    return o.fields[name]
                 if name == "__class__":
                     return o.cls
+                # data descriptors (properties) of the class take precedence over instance storage
+                for k in o.cls.__mro__:
+                    if name in vars(k):
+                        if isinstance(vars(k)[name], property):
+                            return self._class_attr(o.cls, name, v)
+                        break
+                if name in o.fields:
+                    return o.fields[name]
                 return self._class_attr(o.cls, name, v)
             if isinstance(o, HList):
                 return BoundMeth(("list", name), v)
@@ -650,6 +714,15 @@ class Ctx:
         if isinstance(v, Ref):
             o = self.deref(v)
             if isinstance(o, HObj):
+                for k in o.cls.__mro__:
+                    if name in vars(k):
+                        a = vars(k)[name]
+                        if isinstance(a, property):
+                            if a.fset is None:
+                                raise PyRaise(AttributeError, name)
+                            self.call_value(a.fset, [v, val], {})
+                            return
+                        break
                 slots = set()
                 has_dict = False
                 for k in o.cls.__mro__:
@@ -691,6 +764,9 @@ class Ctx:
             return m[1](self, list(args), dict(kwargs))
         if isinstance(f, type) and issubclass(f, BaseException):
             return ModelObj("exception", cls=f, args=args)
+        if isinstance(f, (types.FunctionType, types.MethodType)) and \
+                (getattr(f, "__module__", "") or "").split(".")[0] in ("pyvc", "contracts"):
+            return f(*args, **kwargs)       # engine-level callable (closure of a symbolic value)
         anysym = any(contains_sym(a) for a in args) or any(contains_sym(a) for a in kwargs.values())
         if anysym:
             raise Undecided(f"no model for native call {getattr(f, '__qualname__', f)} with symbolic arguments")
@@ -963,6 +1039,9 @@ class Frame:
 
     def s_For(self, s):
         it = self.ev(s.iter)
+        spec = self.ctx.opts.get("loops", {}).get(id(s))
+        if spec is not None:
+            return self._invariant_loop(s, spec, True, it)
         hook = self.ctx.opts.get("loop_hook")
         if hook is not None:
             r = hook(self, s, it)
@@ -982,7 +1061,60 @@ class Frame:
         if not broke:
             self.exec_block(s.orelse)
 
+    def _invariant_loop(self, s, spec, is_for, it=None):
+        """classic inductive treatment of a loop with a sidecar invariant:
+        entry obligation; then EITHER (step) havoc, assume inv & cond, run the body once, prove inv again, cut
+        OR (exit) havoc, assume inv & not cond, continue after the loop."""
+        ctx = self.ctx
+        ctx.loop_counter += 1
+        k = spec.name
+        ghost = spec.at_entry(ctx, self, it)
+        ctx.side_check(f"{k}.inv.entry", spec.invariant(ctx, self, ghost))
+        step = ctx.branch(z3.Bool(f"loop_step!{k}!{ctx.loop_counter}"))
+        spec.havoc(ctx, self, ghost)
+        ctx.assume(spec.invariant(ctx, self, ghost))
+        if is_for:
+            cond = spec.for_cond(ctx, self, ghost)
+        else:
+            cond = ctx.truthy(self.ev(s.test))
+        if step:
+            if not ctx.branch(cond):
+                raise PathCut()
+            if is_for:
+                self.assign(s.target, spec.for_element(ctx, self, ghost))
+            dec0 = spec.variant(ctx, self, ghost) if hasattr(spec, "variant") else None
+            ctx.in_loop_step = True
+            try:
+                self.exec_block(s.body)
+            except _Break:
+                # a break leaves the loop with the current state: the exit obligations must hold there
+                ctx.in_loop_step = False
+                if hasattr(spec, "after_break"):
+                    spec.after_break(ctx, self, ghost)
+                    return
+                raise Undecided("break inside a loop with an invariant (no after_break clause)")
+            except _Continue:
+                pass
+            ctx.in_loop_step = False
+            if is_for:
+                spec.for_advance(ctx, self, ghost)
+            ctx.side_check(f"{k}.inv.preserved", spec.invariant(ctx, self, ghost))
+            if dec0 is not None:
+                dec1 = spec.variant(ctx, self, ghost)
+                ctx.side_check(f"{k}.decreases", land(dec1 < dec0, dec0 >= 0))
+            raise PathCut()
+        else:
+            if ctx.branch(cond):
+                raise PathCut()
+            if hasattr(spec, "at_exit"):
+                spec.at_exit(ctx, self, ghost)
+            self.exec_block(s.orelse)
+            return
+
     def s_While(self, s):
+        spec = self.ctx.opts.get("loops", {}).get(id(s))
+        if spec is not None:
+            return self._invariant_loop(s, spec, False)
         hook = self.ctx.opts.get("loop_hook")
         if hook is not None:
             r = hook(self, s, None)
